@@ -176,9 +176,12 @@ func Parse(text string) (res ParseResult) {
 				panic(r)
 			}
 			res.Node = nil
-			if len(p.gaps) > 0 {
+			if len(p.gaps) > 0 && !onlyKeywordGaps(p.gaps) {
 				// a gap feature was met before the failure: the failure might be
 				// an artefact of how the model read the gap feature
+				// (not so for let/in: the model read them as identifiers, the most
+				// permissive reading; where that fails, the reserved-word reading,
+				// which rejects the identifier use itself, fails too)
 				res.Status = ParseGap
 				res.Gaps = p.gaps
 				return
@@ -247,6 +250,15 @@ func (p *parser) ledBP(t token) int {
 }
 
 func isKeywordish(s string) bool { return s == "let" || s == "in" }
+
+func onlyKeywordGaps(gaps []string) bool {
+	for _, g := range gaps {
+		if !strings.HasPrefix(g, "let/in used as") {
+			return false
+		}
+	}
+	return true
+}
 
 func (p *parser) nud() *Node {
 	t := p.cur()
